@@ -31,8 +31,19 @@ ASSUMPTIONS = ['gfortran 12 -O0 with -fcheck=bounds,do -ftrapv -ffpe-trap is the
 SHARDS = {'quick': 8, 'thorough': 16}
 BUDGET = {'quick': 80, 'thorough': 1500}
 
-EXCLUDE_RULES = [
-]
+# Listed root causes (known_findings.d/C39.txt): signature of the finding -> (entry-point modes, flags that must all be on,
+# flag that is switched off, reason counted in evidence). A rule is active only while its signature is listed; after the
+# `known:` line has become `fixed:` the generator produces the trigger again. The triggers stay in replays/C39/*.json.
+TRIGGER_RULES = {
+    'C39:candidate-does-not-compile:kw_role_mixed':
+        (None, ['kw_role', 'multi_call'], 'kw_role',
+         'known:parametrised-variable-passed-positionally-in-one-call-and-by-keyword-in-another'),
+    'C39:candidate-does-not-compile:pass_twice':
+        (['driver', 'named'], ['pass_twice'], 'pass_twice', 'known:parametrised-variable-passed-to-two-dummies-of-one-call'),
+    'C39:candidate-does-not-compile:ep_local_clash':
+        (['mid'], ['ep_local_clash', 'two_mids'], 'ep_local_clash', 'known:entry-point-local-named-like-a-dic2p-key'),
+}
+EXCLUDE_RULES = []      # computed per run from ctx.known_sigs (X39.check_case)
 OPT_BASELINE = {'replace_by_value': False, 'abort': 'error_stop', 'roles': 'A'}
 EP_OPTS = {'driver': ('replace_by_value', 'abort'), 'named': ('replace_by_value', 'abort'), 'mid': ('replace_by_value', 'abort')}
 GUARD_TEXT = 'parametrised to value'
@@ -92,7 +103,8 @@ class X39(GI.XCheck):
         from ..fprog.native import same_output, first_diff
         from ..fprog.harness import gfortran_error_class
         if cands[0].stage.startswith('compile'):
-            return 'candidate-does-not-compile:' + gfortran_error_class(cands[0].err), cands[0].err[-1200:]
+            # the compiler message goes to the detail only: its wording varies with the program
+            return 'candidate-does-not-compile', gfortran_error_class(cands[0].err) + ' | ' + cands[0].err[-1200:]
         for iv, (vec, o, c) in enumerate(zip(case['inputs'], origs, cands)):
             if vec['match']:
                 if not c.ok:
@@ -110,6 +122,56 @@ class X39(GI.XCheck):
                 if GUARD_TEXT not in (c.err + c.out):
                     return 'abort-without-guard-message', f'vector {iv}: ' + c.brief()
         return None
+
+
+    def compile_only(self, spec):
+        text, cls = GI.XCheck.compile_only(self, spec)
+        return text, ('candidate-does-not-compile' if cls else None)
+
+    def signature(self, spec, coarse):
+        """
+        C39:<failure class>:<listed root cause> when the built program contains the trigger of a listed root cause (decided
+        from the generated program: the trigger occurs AND touches a parametrised variable; fixed order GEN.TRIGGERS),
+        otherwise C39:<failure class>:<entry-point mode>. No generated names, compiler messages or flag combinations.
+        """
+        trig = GEN.build(spec)['meta']['triggers']
+        return f'{self.pid}:{coarse}:{trig[0] if trig else spec["ep"]}'
+
+    def check_spec(self, spec, ctx, reduce=True):
+        r = self.evaluate(spec)
+        case = {'spec': spec}
+        ctx.case(case, r['nontrivial'], r['classes'] + ([] if r['status'] == 'ok' else ['status:' + r['status']]))
+        if r['status'] == 'ub':
+            ctx.exclude('original-traps-at-runtime(UB)')
+            return
+        if r['status'] == 'reject':
+            ctx.reject(r['exc'], case)
+            return
+        if len(ctx.samples) < 2:
+            ctx.sample({'ep': spec['ep'], 'features': r['case']['meta']['features'], 'source': r['text'][:3500]})
+        if r['status'] != 'fail':
+            return
+        small = self.reduce_failure(spec, r['coarse']) if reduce and not ctx.out_of_time() else spec
+        detail = r['detail']
+        if small is not spec:
+            rs = self.evaluate(small)
+            if rs['status'] == 'fail' and rs['coarse'] == r['coarse']:
+                detail = rs['detail']
+            else:
+                small = spec
+        o = small['opts']
+        detail = (f'ep={small["ep"]} replace_by_value={o.get("replace_by_value")} abort={o.get("abort")} roles={o.get("roles")} '
+                  f'necessary flags={"+".join(GI.on_flags(small)) or "none"}: ') + detail
+        ctx.fail(self.signature(small, r['coarse']), {'spec': small}, detail)
+
+    def check_case(self, seedspec, ctx):
+        rules = [rule for sig, rule in TRIGGER_RULES.items() if sig in ctx.known_sigs]
+        spec, reasons = GI.apply_exclusions(seedspec, rules)
+        for why in reasons:
+            ctx.exclude(why)
+        if ctx.out_of_time():
+            return
+        self.check_spec(spec, ctx)
 
 
 def executes(spec, case):
